@@ -1,5 +1,7 @@
 pub mod c03;
 pub mod c04;
+pub mod c12;
+pub mod c10;
 pub mod c16;
 pub mod c17;
 pub mod util;
@@ -10,6 +12,8 @@ pub fn lookup(prop: &str) -> Option<CheckFn> {
     match prop {
         "C03" => Some(c03::check),
         "C04" => Some(c04::check),
+        "C12" => Some(c12::check),
+        "C10" => Some(c10::check),
         "C16" => Some(c16::check),
         "C17" => Some(c17::check),
         _ => None,
